@@ -49,7 +49,20 @@ class Step:
 
     def ok_paths(self):
         if self._oks is None:
-            self._oks = self.ix.ok_paths_at(self.fn, self.m)
+            oks = self.ix.ok_paths_at(self.fn, self.m)
+            # helpers that update the position or the sent-funds record in place (`&mut Position`, `&mut SentFunds`) are
+            # opened: what they store is then visible as if the update were written in the handler
+            from .rules.common import splice
+
+            def in_place(e):
+                t = e.target
+                return any(t.locals[i + 1]["ty"].startswith("&mut ") and t.locals[i + 1]["ty"].endswith(("margined_engine::Position", "state::SentFunds"))
+                           for i in range(t.arg_count))
+            try:
+                oks = splice(self.ix, oks, in_place, rounds=3)
+            except Exception:
+                pass
+            self._oks = oks
         return self._oks
 
     def s(self, v):
